@@ -56,7 +56,7 @@ def ir_merge(target, other):
                 target_params[name].get("default") in none_types
                 and "default" in other_params[name]
                 and other_params[name]["default"]
-                not in frozenset((None, "None", "(None)"))
+                not in (None, "None", "(None)")  # (a tuple: the default may be unhashable, e.g. a list)
             ):
                 target_params[name]["default"] = other_params[name]["default"]
 
